@@ -435,6 +435,38 @@ def ep_filter(prog: Program) -> RuleResult:
     return r
 
 
+def _expanded_test(prog: Program, cq: str, f, test: ast.expr) -> List[ast.expr]:
+    """the test together with the bodies of the node's own properties it reads (locals of the property inlined)"""
+    out = [test]
+    selfn = f.params[0] if f.params else "self"
+    for x in ast.walk(test):
+        if isinstance(x, ast.Attribute) and isinstance(x.value, ast.Name) and x.value.id == selfn:
+            p = prog.lookup(cq, x.attr)
+            if p is None or not getattr(p, "is_property", False) and not any(src(d).endswith("property") for d in p.node.decorator_list):
+                continue
+            body = [st for st in p.node.body if not (isinstance(st, ast.Expr) and isinstance(st.value, ast.Constant))]
+            env = {}
+            for st in body:
+                if isinstance(st, ast.Assign) and len(st.targets) == 1 and isinstance(st.targets[0], ast.Name):
+                    env[st.targets[0].id] = st.value
+                elif isinstance(st, ast.Return) and st.value is not None:
+
+                    class Sub(ast.NodeTransformer):
+                        def visit_Name(self, n):
+                            return env.get(n.id, n) if isinstance(n.ctx, ast.Load) else n
+
+                    import copy
+                    e = Sub().visit(copy.deepcopy(st.value))
+                    # the property speaks about its own `self`
+                    psel = p.params[0] if p.params else "self"
+                    if psel != selfn:
+                        for y in ast.walk(e):
+                            if isinstance(y, ast.Name) and y.id == psel:
+                                y.id = selfn
+                    out.append(ast.fix_missing_locations(e))
+    return out
+
+
 def ep_operand(prog: Program) -> RuleResult:
     """Operand results are filtered on their truth flag by comparators; the flag of a value-producing node must therefore not
     depend on the truthiness of the value unless the node stands in condition position."""
@@ -485,7 +517,8 @@ def ep_operand(prog: Program) -> RuleResult:
                     # every assignment of a value-truth to the flag must be control-dependent on a condition-position test
                     ok = True
                     for st in [m for m in cfg.nodes if isinstance(m.stmt, ast.Assign) and isinstance(flag, ast.Name) and src(m.stmt.targets[0]) == flag.id and "bool(" in src(m.stmt.value)]:
-                        guarded = any(t.kind == "test" and isinstance(t.stmt, ast.If) and t.true_succ is not None and cfg.dominates(t.true_succ, st.id) and ("_parent_" in src(t.stmt.test) or "_conditions_root_" in src(t.stmt.test)) for t in cfg.nodes)
+                        guarded = any(t.kind == "test" and isinstance(t.stmt, ast.If) and t.true_succ is not None and cfg.dominates(t.true_succ, st.id)
+                                      and any("_parent_" in src(e) or "_conditions_root_" in src(e) for e in _expanded_test(prog, c.qual, f, t.stmt.test)) for t in cfg.nodes)
                         ok = ok and guarded
                     if not isinstance(flag, ast.Name):
                         ok = False
@@ -494,17 +527,35 @@ def ep_operand(prog: Program) -> RuleResult:
                     lo = prog.cls("symbolic.LogicalOperator").qual
                     logical = [x for x in concrete_classes(prog) if prog.is_subclass(x.qual, lo)]
                     for st in [m for m in cfg.nodes if isinstance(m.stmt, ast.Assign) and isinstance(flag, ast.Name) and src(m.stmt.targets[0]) == flag.id and "bool(" in src(m.stmt.value)]:
-                        tests = [t for t in cfg.nodes if t.kind == "test" and isinstance(t.stmt, ast.If) and t.true_succ is not None and cfg.dominates(t.true_succ, st.id) and "_parent_" in src(t.stmt.test)]
+                        tests = [t for t in cfg.nodes if t.kind == "test" and isinstance(t.stmt, ast.If) and t.true_succ is not None and cfg.dominates(t.true_succ, st.id)
+                                 and any("_parent_" in src(e) for e in _expanded_test(prog, c.qual, f, t.stmt.test))]
                         covered = set()
                         root_ok = False
+                        qod = prog.cls("symbolic.QueryObjectDescriptor").qual
+                        queries = [x for x in concrete_classes(prog) if prog.is_subclass(x.qual, qod)]
+                        qcovered = set()
                         for t in tests:
-                            root_ok = root_ok or "_conditions_root_" in src(t.stmt.test)
-                            for cc in [x for x in ast.walk(t.stmt.test) if isinstance(x, ast.Call) and isinstance(x.func, ast.Name) and x.func.id == "isinstance" and len(x.args) == 2]:
-                                kinds = cc.args[1].elts if isinstance(cc.args[1], ast.Tuple) else [cc.args[1]]
-                                for k in kinds:
-                                    q = f.module.resolve(k)
-                                    covered |= {x.name for x in logical if q and prog.is_subclass(x.qual, q)}
+                            for e in _expanded_test(prog, c.qual, f, t.stmt.test):
+                                root_ok = root_ok or "_conditions_root_" in src(e)
+                                # (isinstance(<parent>, Q) and <parent>._child_ is self) - conjuncts of one `and`
+                                for bo in [x for x in ast.walk(e) if isinstance(x, ast.BoolOp) and isinstance(x.op, ast.And)]:
+                                    ident = any(isinstance(v, ast.Compare) and len(v.ops) == 1 and isinstance(v.ops[0], ast.Is) and "_child_" in src(v) and f.params[0] in (src(v.left), src(v.comparators[0])) for v in bo.values)
+                                    for v in bo.values:
+                                        if ident and isinstance(v, ast.Call) and isinstance(v.func, ast.Name) and v.func.id == "isinstance" and len(v.args) == 2:
+                                            for k in (v.args[1].elts if isinstance(v.args[1], ast.Tuple) else [v.args[1]]):
+                                                q = f.module.resolve(k)
+                                                qcovered |= {x.name for x in queries if q and prog.is_subclass(x.qual, q)}
+                                for cc in [x for x in ast.walk(e) if isinstance(x, ast.Call) and isinstance(x.func, ast.Name) and x.func.id == "isinstance" and len(x.args) == 2]:
+                                    kinds = cc.args[1].elts if isinstance(cc.args[1], ast.Tuple) else [cc.args[1]]
+                                    for k in kinds:
+                                        q = f.module.resolve(k)
+                                        covered |= {x.name for x in logical if q and prog.is_subclass(x.qual, q)}
                         missing = sorted({x.name for x in logical} - covered)
+                        qmissing = sorted({x.name for x in queries} - qcovered)
+                        r.check(not qmissing, f"{f.short}#nested-query-condition", f"{f.module.relpath}:{st.lineno}", src(tests[0].stmt.test)[:100] if tests else "",
+                                f"the whole condition of a query ({', '.join(x.name for x in queries)}) counts as a condition position wherever the query stands",
+                                f"a value that is the only condition of a nested query ({qmissing}) is not recognised as a condition: the conditions root is looked up from the root of the whole "
+                                f"expression, i.e. the outermost query; x == an(entity(y, p(y))) keeps every y, whatever p returns")
                         r.check(not missing and root_ok, f"{f.short}#condition-positions-complete", f"{f.module.relpath}:{st.lineno}", src(tests[0].stmt.test)[:100] if tests else "",
                                 f"all {len(logical)} logical operators and the conditions root count as condition positions",
                                 f"a bound value standing as the operand of {missing or 'the conditions root'} is never flagged false: not_(p) for an already bound predicate result p "
